@@ -306,4 +306,66 @@ theorem sliceLoop_mono (c : Circuit) (inputs : List Label) : ∀ (fuel : Nat) (g
           rw [hf] at h'
           exact ih g1 q1 gs' h' x (sliceStep_mono c inputs g.ops gs _ g1 q1 hf x hx)
 
+/-- everything the slice loop discovers is a non-INPUT gate -/
+theorem sliceStep_ni (c : Circuit) (inputs : List Label) : ∀ (ops : List Label) (gs q gs' q' : List Label),
+    ops.foldl (sliceStep c inputs) (.ok (gs, q)) = .ok (gs', q') →
+    ∀ x ∈ gs', x ∈ gs ∨ ∃ og, c.find? x = some og ∧ og.ty ≠ INPUT := by
+  intro ops
+  induction ops with
+  | nil => intro gs q gs' q' h x hx; simp at h; rw [← h.1] at hx; exact Or.inl hx
+  | cons o r ih =>
+    intro gs q gs' q' h x hx
+    simp only [List.foldl_cons] at h
+    cases hs : sliceStep c inputs (.ok (gs, q)) o with
+    | error e => rw [hs, sliceStep_error] at h; cases h
+    | ok pr =>
+      obtain ⟨g1, q1⟩ := pr
+      rw [hs] at h
+      rcases ih g1 q1 gs' q' h x hx with h1 | h1
+      · unfold sliceStep at hs
+        simp only at hs
+        split at hs
+        · simp only [Except.ok.injEq, Prod.mk.injEq] at hs; rw [← hs.1] at h1; exact Or.inl h1
+        · split at hs
+          · cases hs
+          · rename_i og hog
+            split at hs
+            · cases hs
+            · rename_i hty
+              split at hs
+              · simp only [Except.ok.injEq, Prod.mk.injEq] at hs; rw [← hs.1] at h1; exact Or.inl h1
+              · simp only [Except.ok.injEq, Prod.mk.injEq] at hs
+                rw [← hs.1] at h1
+                rcases List.mem_append.mp h1 with h2 | h2
+                · exact Or.inl h2
+                · simp only [List.mem_singleton] at h2; subst h2
+                  exact Or.inr ⟨og, hog, hty⟩
+      · exact Or.inr h1
+
+theorem sliceLoop_ni (c : Circuit) (inputs : List Label) : ∀ (fuel : Nat) (gs q gs' : List Label),
+    sliceLoop c inputs fuel gs q = .ok gs' → ∀ x ∈ gs', x ∈ gs ∨ ∃ og, c.find? x = some og ∧ og.ty ≠ INPUT := by
+  intro fuel
+  induction fuel with
+  | zero => intro gs q gs' h x hx; simp [sliceLoop] at h; rw [← h] at hx; exact Or.inl hx
+  | succ n ih =>
+    intro gs q gs' h x hx
+    unfold sliceLoop at h
+    split at h
+    · simp only [Except.ok.injEq] at h; rw [← h] at hx; exact Or.inl hx
+    · split at h
+      · cases h
+      · rename_i g _
+        simp only at h
+        have h' : (match g.ops.foldl (sliceStep c inputs) (.ok (gs, q.dropLast)) with
+            | .error e => (Except.error e : R (List Label))
+            | .ok (gs, q) => sliceLoop c inputs n gs q) = .ok gs' := h
+        cases hf : g.ops.foldl (sliceStep c inputs) (.ok (gs, q.dropLast)) with
+        | error e => rw [hf] at h'; cases h'
+        | ok pr =>
+          obtain ⟨g1, q1⟩ := pr
+          rw [hf] at h'
+          rcases ih g1 q1 gs' h' x hx with h1 | h1
+          · exact sliceStep_ni c inputs g.ops gs _ g1 q1 hf x h1
+          · exact Or.inr h1
+
 end Cirbo
